@@ -566,14 +566,18 @@ def r5_thread_proc(report, repo, rule='C05-R5'):
       return 'valid-row: outcome stored %d times' % len(stores)
     val = stores[0].ast.value
     ok = isinstance(val, ast.Call) and last_attr(val) == \
-        'PhaseExecutionOutcome' and core.is_name(val.args[0], pr)
+        'PhaseExecutionOutcome' and len(val.args) == 1
     if not ok:
       return 'valid-row: stored outcome does not wrap the phase return value'
+    # what the wrapped value stands for on this path
+    si = p.index_of(lambda n_: n_ is stores[0])
+    res = cfgm.path_resolve(p, val.args[0], before_index=si)
     if v['ret_none']:
-      re = [n for n in _assign_nodes(p, pr)
-            if ends_with(dotted(n.ast.value) or '', 'PhaseResult.CONTINUE')]
-      if len(re) != 1:
+      if not ends_with(dotted(res) or '', 'PhaseResult.CONTINUE'):
         return 'none-row: None is not defaulted to CONTINUE'
+    elif not (isinstance(res, ast.Call) and
+              call_name(res) == 'self._phase_desc'):
+      return 'valid-row: stored outcome does not wrap the phase return value'
     return None
 
   lib.decision_table(report, rule, f,
@@ -623,7 +627,7 @@ def r6_diagnosers(report, repo):
   def spec(v, p):
     if p.end != 'exit':
       return None
-    calls = p.calls(name='self._execute_phase_diagnoser')
+    calls = p.calls(attr='execute_phase_diagnoser')
     iterated = any(l == 'iter' for n, l in p.steps if n.kind == 'for')
     skip = v['none'] or v['aborted'] or v['repeat'] or v['skip']
     if skip and calls:
@@ -647,12 +651,15 @@ def r6_diagnosers(report, repo):
     bad = [n for n in walk_no_nested(lp) if isinstance(n, (ast.Break, ast.Return))]
     report.check(not bad, rule, f.qualname, 'loop-not-left-early', lp,
                  'diagnoser loop has no break/return')
-  d1 = repo.func(TS, 'PhaseState._execute_phase_diagnoser')
+  # the per-diagnoser helper, if there is one, is inlined by the loader: the
+  # rule reads the loop of the entry point only
+  d1 = f
   cs = core.calls_in(d1.node, attr='execute_phase_diagnoser')
   report.expect_instances(rule, len(cs), 1, 'diagnoser executions')
   sh = lib.shielded_by_try(cs[0], ('Exception', 'BaseException', None))
   ok = sh is not None and not any(
-      isinstance(n, ast.Raise) for n in walk_no_nested(sh[1]))
+      isinstance(n, ast.Raise) for n in walk_no_nested(sh[1])) and any(
+          any(p_ is lp for p_ in core.parents(sh[0])) for lp in loops)
   report.check(ok, rule, d1.qualname, 'shield', cs[0],
                'each diagnoser runs inside try/except Exception that does not '
                're-raise (all diagnosers run even if one raises)',
